@@ -415,5 +415,50 @@ def dispatch_set():
     return C
 
 
+def payload_set():
+    """_process_command of both socket classes: a payload attached to the message is handed on as kwargs['rawbytes'],
+    identically - the empty payload included"""
+    C = ContractSet("C19p", "BCP payloads are handed on identically")
+    C.strings = True
+    C.cls("BaseBcpClient", fields={})
+
+    def decode(I, a, k):
+        emit(I, "decode", text=a[0])
+        return VTuple([VStr(z3.String(I.fresh_name("cmd"))), I.new_dict((("a", VInt(z3.Int(I.fresh_name("dec_a")))),))])
+    C.globals["decode_command_string"] = VFn("model", model=decode)
+    C.helpers["on_opaque_call"] = lambda I, fn, a, k: NONE
+
+    def payload_kept(I, result, rawbytes):
+        r = I.force(result)
+        if r.tag != "tuple":
+            return VBool(False)
+        ents = dict(I.container(I.force(r.items[1]).ref).entries)
+        rb = rawbytes
+        alts = rb.alts if isinstance(rb, VUnion) else ((z3.BoolVal(True), I.force(rb)),)
+        cs = []
+        for g, a_ in alts:
+            if a_.tag == "none":
+                cs.append(z3.Implies(g, z3.BoolVal("rawbytes" not in ents)))
+            else:
+                cs.append(z3.Implies(g, I.eq(ents["rawbytes"], a_) if "rawbytes" in ents else z3.BoolVal(False)))
+        return VBool(z3.And(cs))
+    C.helpers["payload_kept"] = payload_kept
+    C.cls("AsyncioBcpClientSocket", file=BCP, fields={})
+    C.fn("AsyncioBcpClientSocket._process_command", params=dict(message=Bytes, rawbytes=Opt(Bytes)),
+         ensures=[("Y1: a message with an attached payload - of any length, also empty - is handed on with exactly that "
+                   "payload as 'rawbytes'; a message without one has no such parameter",
+                   "payload_kept(result, rawbytes)")],
+         modifies=[], raises={}, allow_decorators=["staticmethod"])
+    C.cls("BCPClientSocket", file=BCP, bases=["BaseBcpClient"], fields=dict(
+        _debug=Bool, _bcp_client_socket_commands=Init(lambda I, n: I.new_dict((
+            ("hello", VOpaque("Fn", z3.Const("receive_hello", usort("Fn")))),
+            ("goodbye", VOpaque("Fn", z3.Const("receive_goodbye", usort("Fn")))))))))
+    C.fn("BCPClientSocket._process_command", params=dict(message=Bytes, rawbytes=Opt(Bytes)),
+         ensures=[("Y1 (MPF side): the same for every command that is not handled by the socket itself (hello / goodbye "
+                   "return nothing)", "result is None or payload_kept(result, rawbytes)")],
+         modifies=[], raises={})
+    return C
+
+
 def build_extra():
-    return [dispatch_set()]
+    return [dispatch_set(), payload_set()]
